@@ -78,10 +78,17 @@ static void vec_push_back(struct vec* v, uintptr_t x) { if (v->n >= VCAP) { g_mo
 typedef const uintptr_t* cit;
 /* all stubs turn the iterator pair into (base pointer, length) once and then work with integer indices */
 static _Bool range_sorted(cit b, size_t n) { for (unsigned i = 0; i + 1 < VCAP; i++) if (i + 1 < n && b[i] > b[i + 1]) return 0; return 1; }
-static void STD_sort(uintptr_t* b, uintptr_t* e) {        /* result: the sorted permutation (unique as a sequence of values) */
-  size_t n = e - b;
-  for (unsigned p = 0; p + 1 < VCAP; p++) for (unsigned i = 0; i + 1 < VCAP - p; i++)
-    if (i + 1 < n && b[i] > b[i + 1]) { uintptr_t t = b[i]; b[i] = b[i + 1]; b[i + 1] = t; }
+/* std::sort: the result is THE sorted permutation of the input (unique as a sequence of values).  Encoded with a permutation
+ * witness (and its inverse) instead of a sorting network: same contract, much easier for the SAT solver; the assumptions are
+ * always satisfiable, so no behaviour is excluded */
+static void STD_sort(uintptr_t* b, uintptr_t* e) {
+  size_t n = e - b; uintptr_t in[VCAP]; unsigned char perm[VCAP], inv[VCAP];
+  for (unsigned i = 0; i < VCAP; i++) { in[i] = b[i]; perm[i] = nondet_uchar(); inv[i] = nondet_uchar(); }
+  for (unsigned i = 0; i < VCAP; i++) if (i < n) {
+    XV_ASSUME(perm[i] < n && inv[i] < n && inv[perm[i]] == i && perm[inv[i]] == i);
+    b[i] = in[perm[i]];
+  }
+  for (unsigned i = 0; i + 1 < VCAP; i++) if (i + 1 < n) XV_ASSUME(b[i] <= b[i + 1]);
 }
 unsigned g_search_unsorted;
 static _Bool xv_binary_search(cit b, cit e, uintptr_t key) {   /* sorted range: result <=> key in [b,e); otherwise unspecified */
@@ -110,6 +117,7 @@ static void vec_erase(struct vec* v, cit first, cit last) { if (last != &v->data
 uint64_t g_fence_clock, g_first_slot_clock, g_adopt_clock, g_first_state_clock, g_head_clock; int g_head_order;
 unsigned g_slot_reads[XV_E][XV_K], g_state_reads[XV_E]; _Bool g_seen_active[XV_E], g_link_seen;
 uintptr_t g_gath[VCAP]; unsigned g_ng;           /* HP: non-link words / HE: eras read from slots of entries that were active when last looked at */
+unsigned g_era_add_n; int g_era_add_o; extern uint64_t t_seq, t_era_seq;
 unsigned g_state_store_n, g_ab_cas_ok_n, g_ab_store_n, g_ab_xchg_n, g_cnt_sub_n; int g_state_store_k, g_state_store_o, g_state_store_v, g_ab_cas_o; uint64_t g_cnt_sub_v;
 struct node *g_ab_cas_d, *g_ab_cas_e;
 static void mon_load(void* addr, uint64_t v, int o) {
@@ -139,6 +147,7 @@ static void mon_cas(void* addr, uint64_t e, uint64_t d, _Bool ok, int o) {
 static void mon_rmw(void* addr, uint64_t oldv, uint64_t newv, int o) {
   if (addr == (void*)&global_thread_block_list.abandoned_retired_nodes) { g_ab_xchg_n++; if (!g_adopt_clock) g_adopt_clock = xv_clock; }
   if (addr == (void*)&number_of_active_hps) { g_cnt_sub_n++; g_cnt_sub_v = oldv - newv; }
+  if (addr == (void*)&era_clock) { g_era_add_n++; g_era_add_o = o; t_era_seq = ++t_seq; }
 }
 static _Bool gath_contains(uintptr_t w) { for (unsigned i = 0; i < VCAP; i++) if (i < g_ng && g_gath[i] == w) return 1; return 0; }
 static _Bool gath_in_interval(uint64_t lo, uint64_t hi) { for (unsigned i = 0; i < VCAP; i++) if (i < g_ng && g_gath[i] >= lo && g_gath[i] <= hi) return 1; return 0; }
@@ -174,15 +183,19 @@ static void n_delete_self(struct node* n) {
 #define HP_TCB_begin(t) hp_tcb_begin(&(t))
 #define HP_TCB_end(t) hp_tcb_end(&(t))
 #define HP_TCB_number_of_hps(t) hp_tcb_number_of_hps(&(t))
+#define HE_try_get_era(s, r) he_try_get_era(&(s), &(r))
+#define HE_TCB_begin(t) he_tcb_begin(&(t))
+#define HE_TCB_end(t) he_tcb_end(&(t))
+#define HE_TCB_number_of_hes(t) he_tcb_number_of_hes(&(t))
 #ifdef XV_HE
 #define TCB_gather(e, v) he_tcb_gather(&(e), &(v))
 #define TCB_abandon(e) he_tcb_abandon(&(e))
-#define AS_number_of_active_hazard_eras() he_number_of_active_hazard_eras()
 #else
 #define TCB_gather(e, v) hp_tcb_gather(&(e), &(v))
 #define TCB_abandon(e) hp_tcb_abandon(&(e))
-#define AS_number_of_active_hazard_pointers() hp_number_of_active_hazard_pointers()
 #endif
+#define AS_number_of_active_hazard_pointers() hp_number_of_active_hazard_pointers()
+#define AS_number_of_active_hazard_eras() he_number_of_active_hazard_eras()
 
 /* retire trigger: stubs of the guard-side callees (units hp / he) and of scan */
 unsigned t_reset_n, t_setdel_n, t_scan_n, t_add_n; int t_setdel_d; uint64_t t_seq, t_reset_seq, t_setdel_seq, t_add_seq, t_scan_seq, t_era_seq; struct node* t_setdel_on; size_t t_count_at_scan;
@@ -209,7 +222,7 @@ static _Bool is_adopted(unsigned j) { return j >= XV_L && j < XV_L + in_na; }
 static void reset_ghost(void) {
   g_fence_clock = g_first_slot_clock = g_adopt_clock = g_first_state_clock = g_head_clock = g_first_delete_clock = 0; g_head_order = -1; g_ng = 0; g_link_seen = 0;
   for (unsigned k = 0; k < XV_E; k++) { g_state_reads[k] = 0; g_seen_active[k] = 0; for (unsigned i = 0; i < XV_K; i++) g_slot_reads[k][i] = 0; }
-  g_state_store_n = g_ab_cas_ok_n = g_ab_store_n = g_ab_xchg_n = g_cnt_sub_n = 0; g_double_delete = 0; g_deletes = 0; g_search_unsorted = 0; g_model_overflow = 0;
+  g_state_store_n = g_ab_cas_ok_n = g_ab_store_n = g_ab_xchg_n = g_cnt_sub_n = g_era_add_n = 0; g_double_delete = 0; g_deletes = 0; g_search_unsorted = 0; g_model_overflow = 0;
   t_reset_n = t_setdel_n = t_scan_n = t_add_n = 0; t_seq = 0; xv_clock = 0;
 }
 static void havoc_state(void) {
@@ -387,12 +400,12 @@ void h_trigger(void) {
   size_t threshold = XV_A * number_of_active_hps + XV_B;
 #ifdef XV_HE
   he_guard_reclaim(&g, d);
-  XV_OBL("hpscan.retire.once_then_trigger", OUTSIDE->retirement_era == clock0 && era_clock == clock0 + 1 && g_cnt_sub_n == 1 && XV_IS_RELEASE(t_era_order));
+  XV_OBL("hpscan.retire.once_then_trigger", OUTSIDE->retirement_era == clock0 && era_clock == clock0 + 1 && g_era_add_n == 1 && XV_IS_RELEASE(g_era_add_o) && (t_scan_n == 0 || t_era_seq < t_scan_seq));
 #else
   hp_guard_reclaim(&g, d);
 #endif
   XV_OBL("hpscan.retire.once_then_trigger", t_reset_n == 1 && t_setdel_n == 1 && t_setdel_on == OUTSIDE && t_setdel_d == d && OUTSIDE->deleter == d && t_reset_seq < t_setdel_seq);
   XV_OBL("hpscan.retire.once_then_trigger", local_thread_data.retire_list == OUTSIDE && OUTSIDE->next == l0 && local_thread_data.number_of_retired_nodes == c0 + 1 && OUTSIDE->deleted == 0);
-  XV_OBL("hpscan.retire.once_then_trigger", t_scan_n == (c0 + 1 >= threshold ? 1 : 0) && (t_scan_n == 0 || t_count_at_scan == c0 + 1));
+  XV_OBL("hpscan.retire.once_then_trigger", t_scan_n == (c0 + 1 >= threshold ? 1 : 0) && (t_scan_n == 0 || (t_count_at_scan == c0 + 1 && t_setdel_seq < t_scan_seq)));
   if (t_scan_n) XV_CANARY("trigger.scan"); else XV_CANARY("trigger.no_scan");
 }
